@@ -28,24 +28,44 @@ type session struct {
 	cmd *exec.Cmd
 	in  io.WriteCloser
 	out *bufio.Reader
+	sc  *Script
+	nDecl, nChecked int
 }
 
+var sessionSolver = "z3-new"
+
 func newSession(script string) (*session, string, error) {
-	cmd := exec.Command("z3-new", "-in", "-T:30")
+	cmd := exec.Command(sessionSolver, "-in", "-T:30")
 	in, _ := cmd.StdinPipe()
 	outp, _ := cmd.StdoutPipe()
 	cmd.Stderr = nil
 	if err := cmd.Start(); err != nil {
 		return nil, "", err
 	}
-	s := &session{cmd, in, bufio.NewReader(outp)}
+	s := &session{cmd: cmd, in: in, out: bufio.NewReader(outp)}
 	io.WriteString(in, script)
-	io.WriteString(in, "\n(check-sat)\n")
+	res, err := s.check()
+	return s, res, err
+}
+
+func (s *session) check() (string, error) {
+	io.WriteString(s.in, "\n(check-sat)\n")
 	line, err := s.out.ReadString('\n')
 	if err != nil {
-		return nil, "", err
+		return "", err
 	}
-	return s, strings.TrimSpace(line), nil
+	return strings.TrimSpace(line), nil
+}
+
+// soft adds the assertion if the problem stays satisfiable with it.
+func (s *session) soft(assertion string) bool {
+	io.WriteString(s.in, "(push 1)\n(assert "+assertion+")\n")
+	res, err := s.check()
+	if err == nil && res == "sat" {
+		return true
+	}
+	io.WriteString(s.in, "(pop 1)\n")
+	return false
 }
 
 func (s *session) close() {
@@ -62,6 +82,18 @@ func (s *session) close() {
 
 // value asks for the value of a scalar term; returns the value text.
 func (s *session) value(t Term) (string, error) {
+	if s.sc != nil {
+		// declarations created lazily since the script was rendered
+		for ; s.nDecl < len(s.sc.declOrder); s.nDecl++ {
+			io.WriteString(s.in, s.sc.decls[s.sc.declOrder[s.nDecl]]+"\n")
+		}
+		if s.nDecl > s.nChecked {
+			s.nChecked = s.nDecl
+			if r, err := s.check(); err != nil || r != "sat" {
+				return "", fmt.Errorf("model lost after late declarations (%s)", r)
+			}
+		}
+	}
 	fmt.Fprintf(s.in, "(get-value (%s))\n", t.S)
 	// read one balanced s-expression
 	depth := 0
@@ -149,6 +181,7 @@ type extractor struct {
 	pkg  *types.Package
 	errs []string
 	pins []string // SMT assertions pinning the extracted inputs
+	tooLong []string // soft constraints to add on the next round
 	imports map[string]bool
 }
 
@@ -209,6 +242,7 @@ func (x *extractor) lit(t Term, ty types.Type, depth int) string {
 				return `""`
 			}
 			if n.Cmp(big.NewInt(replayMaxElems)) > 0 {
+				x.tooLong = append(x.tooLong, fmt.Sprintf("(bvsle (strlen %s) (_ bv%d 64))", t.S, replayMaxElems))
 				return x.fail("string too long in model (%s)", n)
 			}
 			x.pins = append(x.pins, mkEq(mk(bvSort(64), "strlen", t), bvConst(n, 64)).S)
@@ -238,6 +272,7 @@ func (x *extractor) lit(t Term, ty types.Type, depth int) string {
 			return "nil"
 		}
 		if n.Cmp(big.NewInt(replayMaxElems)) > 0 {
+			x.tooLong = append(x.tooLong, fmt.Sprintf("(bvsle (s-len %s) (_ bv%d 64))", t.S, replayMaxElems))
 			return x.fail("slice too long in model (%s elements)", n)
 		}
 		x.pins = append(x.pins, mkEq(sLen(t), bvConst(n, 64)).S, mkNot(mkEq(sBase(t), intConst(0))).S)
@@ -260,33 +295,12 @@ func (x *extractor) lit(t Term, ty types.Type, depth int) string {
 			return "nil"
 		}
 		x.pins = append(x.pins, mkNot(mkEq(t, intConst(0))).S)
-		st, isStruct := u.Elem().Underlying().(*types.Struct)
-		if !isStruct {
+		if _, isStruct := u.Elem().Underlying().(*types.Struct); !isStruct {
 			region := x.u.cellRegion(u.Elem())
 			v := x.lit(mk(te.sortOf(u.Elem()), "select", x.u.heapGet(x.heap, region), t), u.Elem(), depth+1)
 			return fmt.Sprintf("func() %s { v := %s; return &v }()", tyStr, v)
 		}
-		if depth > 3 {
-			return x.fail("object graph too deep")
-		}
-		var fields []string
-		for i := 0; i < st.NumFields(); i++ {
-			f := st.Field(i)
-			if _, nested := f.Type().Underlying().(*types.Struct); nested {
-				continue // zero value for embedded structs (mutexes etc.)
-			}
-			if !f.Exported() && f.Pkg() != x.pkg {
-				continue
-			}
-			switch f.Type().Underlying().(type) {
-			case *types.Map, *types.Chan, *types.Signature, *types.Interface:
-				continue
-			}
-			region := x.u.fieldRegion(u.Elem(), i)
-			ft := mk(te.sortOf(f.Type()), "select", x.u.heapGet(x.heap, region), t)
-			fields = append(fields, fmt.Sprintf("%s: %s", f.Name(), x.lit(ft, f.Type(), depth+1)))
-		}
-		return fmt.Sprintf("&%s{%s}", types.TypeString(u.Elem(), x.qual), strings.Join(fields, ", "))
+		return "&" + x.structLit(t, u.Elem(), depth)
 	case *types.Interface:
 		tag, ok := x.scalar(mk(SInt, "if-tag", t))
 		if !ok || tag.Sign() == 0 {
@@ -300,6 +314,42 @@ func (x *extractor) lit(t Term, ty types.Type, depth int) string {
 		return x.fail("non-nil interface input of type %s", tyStr)
 	}
 	return x.fail("unsupported input type %s", tyStr)
+}
+
+// structLit renders the struct object at reference ref as a composite literal.
+func (x *extractor) structLit(ref Term, sty types.Type, depth int) string {
+	te := x.u.te
+	st := sty.Underlying().(*types.Struct)
+	if depth > 3 {
+		x.fail("object graph too deep")
+		return types.TypeString(sty, x.qual) + "{}"
+	}
+	var fields []string
+	for i := 0; i < st.NumFields(); i++ {
+		f := st.Field(i)
+		if !f.Exported() && f.Pkg() != x.pkg {
+			continue
+		}
+		if _, nested := f.Type().Underlying().(*types.Struct); nested {
+			if n := namedOf(f.Type()); n == nil || n.Obj().Pkg() != x.pkg {
+				continue // zero value for foreign embedded structs (mutexes etc.)
+			}
+			fields = append(fields, fmt.Sprintf("%s: %s", f.Name(), x.structLit(x.u.subObject(sty, i, ref), f.Type(), depth+1)))
+			continue
+		}
+		switch f.Type().Underlying().(type) {
+		case *types.Map, *types.Chan, *types.Signature:
+			continue
+		case *types.Interface:
+			if !isErrorType(f.Type()) {
+				continue
+			}
+		}
+		region := x.u.fieldRegion(sty, i)
+		ft := mk(te.sortOf(f.Type()), "select", x.u.heapGet(x.heap, region), ref)
+		fields = append(fields, fmt.Sprintf("%s: %s", f.Name(), x.lit(ft, f.Type(), depth+1)))
+	}
+	return fmt.Sprintf("%s{%s}", types.TypeString(sty, x.qual), strings.Join(fields, ", "))
 }
 
 // ---------------------------------------------------------------------
@@ -327,21 +377,40 @@ func tryReplay(eng *Engine, o *Obligation, info map[string]any, repo string) boo
 		info["replay"] = "function outside /repo"
 		return false
 	}
+	nDeclScript := len(u.sc.declOrder)
 	script := strings.Replace(u.query(o, false), "(check-sat)\n", "", 1)
 	script = strings.Replace(script, "(get-model)\n", "", 1)
-	// shrink: prefer small inputs
-	shrink := ""
+	pkg := eng.typesPkgByPath(pkgPath)
+	var softs []string
 	for _, in := range u.inputs {
-		if in.T.Sort == SSlice {
-			shrink += fmt.Sprintf("(assert (bvsle (s-len %s) (_ bv%d 64)))\n", in.T.S, replayMaxElems)
+		switch in.T.Sort {
+		case SSlice:
+			softs = append(softs, fmt.Sprintf("(bvsle (s-len %s) (_ bv8 64))", in.T.S), fmt.Sprintf("(bvsle (s-len %s) (_ bv%d 64))", in.T.S, replayMaxElems))
+		case SIface:
+			softs = append(softs, fmt.Sprintf("(= (if-tag %s) 0)", in.T.S))
+		case SStr:
+			softs = append(softs, fmt.Sprintf("(bvsle (strlen %s) (_ bv%d 64))", in.T.S, replayMaxElems))
 		}
 	}
-	s, res, err := newSession(script + shrink)
-	if err != nil || res != "sat" {
-		if s != nil {
-			s.close()
+	var x *extractor
+	var argLits []string
+	inputs := map[string]string{}
+	var s *session
+	for round := 0; round < 4; round++ {
+		sessionSolver = "z3-new"
+		if o.Solver == "z3" {
+			sessionSolver = "z3"
 		}
+		var res string
+		var err error
 		s, res, err = newSession(script)
+		if (err != nil || res != "sat") && sessionSolver == "z3-new" {
+			if s != nil {
+				s.close()
+			}
+			sessionSolver = "z3"
+			s, res, err = newSession(script)
+		}
 		if err != nil || res != "sat" {
 			if s != nil {
 				s.close()
@@ -349,17 +418,30 @@ func tryReplay(eng *Engine, o *Obligation, info map[string]any, repo string) boo
 			info["replay"] = "no model available from the interactive solver session (" + res + ")"
 			return false
 		}
+		for _, c := range softs {
+			s.soft(c)
+		}
+		if r, err := s.check(); err != nil || r != "sat" {
+			s.close()
+			info["replay"] = "interactive solver session lost the model"
+			return false
+		}
+		s.sc = u.sc
+		s.nDecl, s.nChecked = nDeclScript, nDeclScript
+		x = &extractor{u: u, s: s, heap: Heap{}, pkg: pkg, imports: map[string]bool{}}
+		argLits = nil
+		for _, in := range u.inputs {
+			l := x.lit(in.T, in.Ty, 0)
+			argLits = append(argLits, l)
+			inputs[in.Name] = l
+		}
+		if len(x.tooLong) == 0 || round == 3 {
+			break
+		}
+		softs = append(softs, x.tooLong...)
+		s.close()
 	}
 	defer s.close()
-	pkg := eng.typesPkgByPath(pkgPath)
-	x := &extractor{u: u, s: s, heap: Heap{}, pkg: pkg, imports: map[string]bool{}}
-	var argLits []string
-	inputs := map[string]string{}
-	for _, in := range u.inputs {
-		l := x.lit(in.T, in.Ty, 0)
-		argLits = append(argLits, l)
-		inputs[in.Name] = l
-	}
 	info["model_inputs"] = inputs
 	if len(x.errs) > 0 {
 		info["replay"] = "model not replayable: " + strings.Join(x.errs, "; ")
@@ -399,7 +481,10 @@ func tryReplay(eng *Engine, o *Obligation, info map[string]any, repo string) boo
 			pin.WriteString("(assert " + a + ")\n")
 		}
 	}
-	s2, res2, err := newSession(script + pin.String())
+	script2 := strings.Replace(u.query(o, false), "(check-sat)\n", "", 1)
+	script2 = strings.Replace(script2, "(get-model)\n", "", 1)
+	os.WriteFile(strings.TrimSuffix(o.File, ".smt2")+".pinned.smt2", []byte(script2+pin.String()+"(check-sat)\n"), 0o644)
+	s2, res2, err := newSession(script2 + pin.String())
 	if s2 != nil {
 		s2.close()
 	}
@@ -468,7 +553,15 @@ func runHarness(eng *Engine, fn *ssa.Function, pkg *types.Package, argLits []str
 	defer os.RemoveAll(tmp)
 	var sb strings.Builder
 	sb.WriteString("package " + pkg.Name() + "\n\nimport (\n\t\"encoding/json\"\n\t\"fmt\"\n\t\"os\"\n\t\"testing\"\n")
+	allLits := strings.Join(argLits, " ")
 	for p := range imports {
+		base := p
+		if i := strings.LastIndex(p, "/"); i >= 0 {
+			base = p[i+1:]
+		}
+		if !strings.Contains(allLits, base+".") {
+			continue
+		}
 		if p != "encoding/json" && p != "fmt" && p != "os" && p != "testing" {
 			sb.WriteString("\t\"" + p + "\"\n")
 		}
